@@ -613,6 +613,11 @@ class SReal:
         return SReal.of(o) / self
 
     def __floordiv__(self, o):
+        """real // k for a concrete positive k: floor of the exact quotient, as a real (Python returns a float)"""
+        if isinstance(o, (int, Fraction)) and not isinstance(o, bool) and o > 0:
+            return SReal.of((self / o).__floor__())
+        if isinstance(o, float) and o > 0 and Fraction(o).denominator <= 1 << 20:
+            return SReal.of((self / Fraction(o)).__floor__())
         raise Unsupported("real // x")
 
     def __rfloordiv__(self, o):
